@@ -10,6 +10,7 @@
 mod fcsched;
 mod orderstress;
 mod puresweep;
+mod pushstress;
 mod racestress;
 mod seqcase;
 mod seqdiff;
@@ -25,6 +26,7 @@ fn main() {
         Some("fccase") if args.len() == 1 => fcsched::main_fccase(),
         Some("racestress") => racestress::main_racestress(&args[1..]),
         Some("orderstress") => orderstress::main_orderstress(&args[1..]),
+        Some("pushstress") => pushstress::main_pushstress(&args[1..]),
         _ => {
             eprintln!(
                 "usage:\n  harness seqdiff <cases-file> <results-file> [--jobs N]\n  harness seqcase < case > result\n  harness puresweep <ops-file> <results-file>\n  harness fcsched <cases-file> <results-file> [--jobs N]\n  harness fccase < case > result"
